@@ -22,14 +22,17 @@ def _grab(call, names):
 
 
 def confirm(ob, call, rep):
-    cap = _grab(call, ['crash_workload', 'ann_roundtrip', 'ann_linebreak', 'log_verbatim', 'ann_atomic'])
+    cap = _grab(call, ['crash_workload', 'ann_roundtrip', 'ann_linebreak', 'log_verbatim', 'ann_atomic', 'many_datasets'])
     if cap['name'] == 'ann_atomic':
         # structural obligation over the real method body (lock recorder + in-memory open): the concrete replay of
         # the harness already ran the real code; the race it stands for needs two writers and is not re-enacted
         return dict(ok=False, note='read-modify-write of the annotations / log file is not one exclusive critical section')
-    if cap['name'] == 'crash_workload':
-        k, a, b, s2, s3, rf = cap['args']
-        d = dict(k=k, a=a, b=b, share2=bool(s2), share3=bool(s3), restore_first=bool(rf))
+    if cap['name'] in ('crash_workload', 'many_datasets'):
+        if cap['name'] == 'many_datasets':
+            d = dict(n=cap['args'][0], again=cap['args'][1])
+        else:
+            k, a, b, s2, s3, rf = cap['args']
+            d = dict(k=k, a=a, b=b, share2=bool(s2), share3=bool(s3), restore_first=bool(rf))
         p = subprocess.run([PY, '-W', 'ignore', os.path.join(VERIF, 'lib', 'db_replay.py'), json.dumps(d)],
                            capture_output=True, text=True, timeout=600)
         for line in p.stdout.splitlines():
@@ -89,6 +92,9 @@ def main():
                               env=dict(VH_A=a, VH_B=b, VH_KLO=lo, VH_KMAX=hi)))
     obs.append(Ob('crash_workload__twin', 'C16_db.py', 'crash_workload__twin', 120, kind='twin',
                   env=dict(VH_KMAX=kmax)))
+    nmax = 14 if thorough else 12
+    obs.append(Ob(f'many_datasets[n<={nmax}]', 'C16_db.py', 'many_datasets', T, env=dict(VH_NMAX=nmax)))
+    obs.append(Ob('many_datasets__twin', 'C16_db.py', 'many_datasets__twin', 120, kind='twin', env=dict(VH_NMAX=3)))
     maxa = 4 if thorough else 3
     maxm = 3 if thorough else 2
     obs.append(Ob('ann_roundtrip', 'C16_ctx.py', 'ann_roundtrip', T, env=dict(VH_MAXA=maxa)))
@@ -105,12 +111,13 @@ def main():
     run.bounds = dict(workload='store a; store b (a,b in 3 models, some sharing a dataset) | crash before FS op k, '
                                'k<=30 (covers every operation of two stores; writes are create+fill so torn files '
                                'are included) | restart | retrieve x3, store x3 (both orders), retrieve',
+                      many_datasets=f'1..{nmax} models with pairwise different datasets stored in sequence, one stored twice',
                       annotations=f'names 1-2 chars, annotation <= {maxa} chars over {{a,b,space}} (+ line break in the '
                                   f'finding obligation)',
                       log=f'two messages, first <= {maxm} chars over {{a, quote, comma, line break}}',
                       outside='fsync/rename durability below the Python API; store_modelfit_results/metadata contents; '
                               'pd.read_csv in retrieve_log; concurrent transactions (serialised by the path lock, C15)')
-    run.assumptions = ['in-memory file system behind pathlib.Path.{mkdir,touch,exists,is_file,is_dir,iterdir,unlink}',
+    run.assumptions = ['in-memory file system behind pathlib.Path.{mkdir,touch,exists,is_file,is_dir,iterdir,glob,unlink}',
                        'write_csv / write_model / DataInfo.to_json are "create empty, then fill" (two operations)',
                        'models, datainfo and ModelHash are token-level stand-ins; Model.parse_model returns raw content',
                        'path_lock is a null context here: transactions are serialised (established by C15)',
@@ -123,8 +130,9 @@ def main():
     nconform = 0
     for call in ['crash_workload(3, 1, 2, True, False, True)', 'crash_workload(5, 1, 2, True, False, True)',
                  'crash_workload(8, 1, 1, False, True, False)', 'crash_workload(11, 2, 3, True, True, True)',
-                 'crash_workload(17, 1, 2, True, False, False)', 'crash_workload(30, 3, 1, False, False, True)']:
-        ob = Ob(f'conformance:{call}', 'C16_db.py', 'crash_workload', env=dict(VH_KMAX=kmax))
+                 'crash_workload(17, 1, 2, True, False, False)', 'crash_workload(30, 3, 1, False, False, True)',
+                 'many_datasets(11, 3)']:
+        ob = Ob(f'conformance:{call}', 'C16_db.py', call.split('(')[0], env=dict(VH_KMAX=kmax))
         mrep = replay_call(ob, call)
         real = confirm(ob, call, mrep)
         if mrep.get('ok') is True and real.get('ok') is True:
